@@ -17,7 +17,9 @@ import (
 	"encoding/hex"
 	"fmt"
 	"os"
+	"path/filepath"
 	"strconv"
+	"strings"
 	"testing"
 
 	"cosmossdk.io/math"
@@ -25,6 +27,7 @@ import (
 	sdk "github.com/cosmos/cosmos-sdk/types"
 	banktypes "github.com/cosmos/cosmos-sdk/x/bank/types"
 	govv1beta1 "github.com/cosmos/cosmos-sdk/x/gov/types/v1beta1"
+	"github.com/ethereum/go-ethereum/accounts/abi"
 	"github.com/ethereum/go-ethereum/common"
 	"github.com/ethereum/go-ethereum/crypto"
 	"github.com/palomachain/paloma/v2/app"
@@ -93,6 +96,40 @@ var worldKinds = map[string]worldKind{
 
 // blockAbort is thrown when a block of the world preparation cannot be finalised (reported, never hidden).
 type blockAbort struct{ err error }
+
+func repoDir() string {
+	if d := os.Getenv("VERIF_REPO"); d != "" {
+		return d
+	}
+	return "/repo"
+}
+
+// the compass (bridge contract) ABI and a ContractDeployed event payload that ship with the repository
+var (
+	compassABIJSON      string
+	compassABI          abi.ABI
+	compassBytecode     []byte
+	deployedEventData   []byte
+	contractDeployedSig = crypto.Keccak256Hash([]byte("ContractDeployed(address,address,uint256)"))
+)
+
+func loadCompass() {
+	if compassABIJSON != "" {
+		return
+	}
+	b, err := os.ReadFile(filepath.Join(repoDir(), "x/evm/keeper/testdata/sample-abi.json"))
+	must(err)
+	compassABIJSON = string(b)
+	compassABI, err = abi.JSON(strings.NewReader(compassABIJSON))
+	must(err)
+	bc, err := os.ReadFile(filepath.Join(repoDir(), "x/evm/keeper/testdata/sample-bytecode.out"))
+	must(err)
+	compassBytecode = common.FromHex(strings.TrimSpace(string(bc)))
+	ev, err := os.ReadFile(filepath.Join(repoDir(), "x/evm/keeper/testdata/deployed-contract-event.hex"))
+	must(err)
+	deployedEventData, err = hex.DecodeString(strings.TrimSpace(string(ev)))
+	must(err)
+}
 
 // world is the prepared chain plus the external keys of the validators.
 type world struct {
@@ -168,6 +205,7 @@ func newWorldOf(kind worldKind, target int64) (w *world, stack string) {
 			panic(r)
 		}
 	}()
+	loadCompass()
 	e := env.NewE2(env.E2Options{Seed: drv.Seed(), Powers: kind.powers, NumUsers: nUsers,
 		Genesis: func(cdc codec.Codec, gs app.GenesisState) {
 			// the native denom carries bank metadata (definition of app.BankModule, as on the live chain)
@@ -211,7 +249,7 @@ func newWorldOf(kind worldKind, target int64) (w *world, stack string) {
 		}
 		// compass deployed and attested on both chains (what the attestation of the upload message does)
 		k := e.App.EvmKeeper
-		sc, err := k.SaveNewSmartContract(ctx, "[]", []byte{0x60, 0x01, 0x60, 0x02})
+		sc, err := k.SaveNewSmartContract(ctx, compassABIJSON, compassBytecode)
 		if err != nil {
 			return err
 		}
@@ -301,6 +339,17 @@ func (c *chain) mustBlock(txs ...[][]byte) {
 		if r.Code != 0 {
 			panic(fmt.Sprintf("world preparation: tx %d failed: %s %d %s", i, r.Codespace, r.Code, r.Log))
 		}
+	}
+}
+
+// anyBlock delivers the templates in one block; transactions may fail, the block may not.
+func (c *chain) anyBlock(names ...string) {
+	var txs [][]byte
+	for _, n := range names {
+		txs = append(txs, c.tpl(n)...)
+	}
+	if _, err := c.e.DeliverBlock(txs); err != nil {
+		panic(blockAbort{err})
 	}
 }
 
